@@ -554,12 +554,17 @@ package core
 //@   assumed
 //@   ensures (result == nil ==> ruleWriteFailed[0] == old(ruleWriteFailed[0])) && (result != nil ==> ruleWriteFailed[0] == old(ruleWriteFailed[0]) + 1)
 //@   modifies ghost kvhas, ghost kvval, ghost ruleWriteFailed
+// Rule groups are stored under path.Join("rule_group", id) with the RAW id (rules use hex-encoded ids): the key is
+// "rule_group/<id>" - distinct per id and found again by the prefix scan - only when the id is one clean path segment
+// (no "/", not "." or "..", not empty). cleanPathSegment is that (uninterpreted) predicate; callers must establish it.
 //@ func (*Storage).SaveRuleGroup
 //@   assumed
+//@   requires [group-id-is-one-clean-path-segment] ufb("cleanPathSegment", groupID)
 //@   ensures (result == nil ==> ruleWriteFailed[0] == old(ruleWriteFailed[0])) && (result != nil ==> ruleWriteFailed[0] == old(ruleWriteFailed[0]) + 1)
 //@   modifies ghost kvhas, ghost kvval, ghost ruleWriteFailed
 //@ func (*Storage).DeleteRuleGroup
 //@   assumed
+//@   requires [group-id-is-one-clean-path-segment] ufb("cleanPathSegment", groupID)
 //@   ensures (result == nil ==> ruleWriteFailed[0] == old(ruleWriteFailed[0])) && (result != nil ==> ruleWriteFailed[0] == old(ruleWriteFailed[0]) + 1)
 //@   modifies ghost kvhas, ghost kvval, ghost ruleWriteFailed
 
